@@ -376,8 +376,9 @@ Definition node_ok (st : sstate) (c : bytes) (n : node) : Prop :=
   /\ length (lp_parts (n_params n)) = 2%nat
   /\ (forall x, In x (n_hist n) -> al_assets (st_alloc x) = s_assets st)
   /\ (if bytes_eqb c (rootid st)
-      then n_params n = s_root st
-           /\ forall x, In x (n_hist n) -> alloc_sum (st_alloc x) = map zsum (s_agree st)
+      then n_params n = s_root st /\ lp_ledger (n_params n) = true
+           /\ (forall x, In x (n_hist n) -> alloc_sum (st_alloc x) = map zsum (s_agree st))
+           /\ (forall x l, In x (n_hist n) -> In l (al_locked (st_alloc x)) -> sa_id l <> rootid st)
       else lp_ledger (n_params n) = false
            /\ forall x, In x (n_hist n) -> al_locked (st_alloc x) = []).
 Definition nodes_ok (st : sstate) (j : N) : Prop :=
@@ -406,9 +407,10 @@ Proof.
     split; [reflexivity|]. split; [cbn [hist_chain]; auto|]. split; [exact Hcd|]. split; [exact Hp|].
     split; [intros x [<-|[]]; exact Has|].
     destruct (bytes_eqb (lp_id p) (rootid st)).
-    + destruct Hroot as (Hq & _ & Hag). split; [apply lparams_eqb_eq; exact Hq|].
-      intros x [<-|[]]. unfold alloc_sum. rewrite Hl. cbn [fold_left].
-      unfold agreement_ok in Hag. apply andb_true_iff in Hag as [Hag _]. apply zlist_eqb_eq in Hag. exact Hag.
+    + destruct Hroot as (Hq & Hled & Hag). split; [apply lparams_eqb_eq; exact Hq|]. split; [exact Hled|]. split.
+      * intros x [<-|[]]. unfold alloc_sum. rewrite Hl. cbn [fold_left].
+        unfold agreement_ok in Hag. apply andb_true_iff in Hag as [Hag _]. apply zlist_eqb_eq in Hag. exact Hag.
+      * intros x l [<-|[]] Hin. rewrite Hl in Hin. destruct Hin.
     + split; [exact Hroot|]. intros x [<-|[]]. exact Hl.
   - (* enable *)
     destruct H as (Hi & n0 & cur & rest & Hf0 & Hh & Hfr & Hfu & Hg & Hr & ->).
@@ -424,9 +426,14 @@ Proof.
     split; [exact K1|]. split; [cbn [hist_chain]; split; [exact Hg|exact K2]|]. split; [exact K3|]. split; [exact K4|].
     split.
     { intros x [<-|Hx]; [|apply K5; exact Hx]. rewrite <- G4. apply K5. left. reflexivity. }
-    destruct (bytes_eqb (st_id s) (rootid st)).
-    + destruct K6 as [K6 K7]. split; [exact K6|]. intros x [<-|Hx]; [|apply K7; exact Hx].
-      rewrite <- G5. apply K7. left. reflexivity.
+    destruct (bytes_eqb (st_id s) (rootid st)) eqn:Eroot.
+    + destruct K6 as (K6 & K6l & K7 & K8). split; [exact K6|]. split; [exact K6l|]. split.
+      * intros x [<-|Hx]; [|apply K7; exact Hx]. rewrite <- G5. apply K7. left. reflexivity.
+      * intros x l [<-|Hx] Hin; [|eapply K8; eauto].
+        intro Eq. apply bytes_eqb_eq in Eroot.
+        unfold root_succ_ok in Hr. rewrite forallb_forall in Hr. specialize (Hr _ Hin).
+        apply andb_true_iff in Hr as [Hb _]. unfold suballoc_backed in Hb.
+        rewrite (get_party_side st i j E) in Hb. rewrite Eq, <- Eroot, Hf0 in Hb. rewrite K6l in Hb. discriminate Hb.
     + destruct K6 as [K6 K7]. split; [exact K6|]. intros x [<-|Hx]; [exact Hr|apply K7; exact Hx].
   - (* freeze *)
     destruct H as (Hi & n0 & Hf0 & ->).
@@ -537,6 +544,7 @@ Definition entry_good (st : sstate) (p : lparams) (s : state) : Prop :=
   /\ (if bytes_eqb (st_id s) (rootid st)
       then p = s_root st /\ alloc_sum (st_alloc s) = map zsum (s_agree st)
            /\ al_assets (st_alloc s) = s_assets st
+           /\ (forall l, In l (al_locked (st_alloc s)) -> sa_id l <> rootid st)
       else al_locked (st_alloc s) = [] /\ lp_ledger p = false).
 Lemma known_good st k p s : nodes_ok st k -> known st k p s -> entry_good st p s.
 Proof.
@@ -544,7 +552,7 @@ Proof.
   destruct (Ok _ _ Hf) as (K1 & K2 & K3 & K4 & K5 & K6). unfold entry_good.
   split; [congruence|]. split; [exact Hs|]. split; [exact K3|].
   destruct (bytes_eqb (st_id s) (rootid st)).
-  - destruct K6 as [K6 K7]. auto.
+  - destruct K6 as (K6 & _ & K7 & K8). splits; auto. intros l Hl. eapply K8; eauto.
   - destruct K6 as [K6 K7]. auto.
 Qed.
 
@@ -1101,4 +1109,431 @@ Proof.
     apply existsb_exists. exists l. split; [exact Hl|apply bytes_eqb_refl]. }
   destruct (Hfin _ _ _ _ Hn Rell Hdl (Htol Hcl) Htl) as (El & Nml). subst tl.
   exists n, dl. auto.
+Qed.
+
+(* ================= a participant whose own Conclude succeeded (C03) ================= *)
+Lemma frozen_node_stays st e st' k c n :
+  bfind (pt_nodes (get_party st k)) c = Some n -> n_frozen n = true -> step_spec st e st' ->
+  exists n', bfind (pt_nodes (get_party st' k)) c = Some n' /\ n_hist n' = n_hist n /\ n_frozen n' = true
+             /\ n_params n' = n_params n.
+Proof.
+  intros Hf Fr H. destruct (is_local e) eqn:El.
+  2:{ rewrite (step_nodes_ledger _ _ _ k H El). eauto. }
+  destruct e; try discriminate El; cbn [step_spec] in H.
+  - destruct H as (_ & Hnone & _ & _ & _ & _ & _ & _ & _ & ->).
+    destruct (Bool.bool_dec (side i) (side k)) as [E|E].
+    2:{ rewrite (get_set_other _ _ _ _ E). eauto. }
+    rewrite (get_set_side _ _ _ _ E). cbn [upd_node pt_nodes]. rewrite bfind_bput.
+    rewrite (get_party_side st i k E) in *.
+    destruct (bytes_eqb c (lp_id p)) eqn:Ec; [|eauto].
+    apply bytes_eqb_eq in Ec. subst c. congruence.
+  - destruct H as (_ & n0 & cur & rest & Hf0 & _ & Hfr & _ & _ & _ & ->).
+    destruct (Bool.bool_dec (side i) (side k)) as [E|E].
+    2:{ rewrite (get_set_other _ _ _ _ E). eauto. }
+    rewrite (get_set_side _ _ _ _ E). cbn [upd_node pt_nodes]. rewrite bfind_bput.
+    rewrite (get_party_side st i k E) in *.
+    destruct (bytes_eqb c (st_id s)) eqn:Ec; [|eauto].
+    apply bytes_eqb_eq in Ec. subst c. congruence.
+  - destruct H as (_ & n0 & Hf0 & ->).
+    destruct (Bool.bool_dec (side i) (side k)) as [E|E].
+    2:{ rewrite (get_set_other _ _ _ _ E). eauto. }
+    rewrite (get_set_side _ _ _ _ E). cbn [upd_node pt_nodes]. rewrite bfind_bput.
+    rewrite (get_party_side st i k E) in *.
+    destruct (bytes_eqb c c0) eqn:Ec; [|eauto].
+    apply bytes_eqb_eq in Ec. subst c0. rewrite Hf in Hf0. injection Hf0 as <-.
+    eexists. split; [reflexivity|]. cbn [n_hist n_frozen n_params]. auto.
+Qed.
+
+(* the ledger channel is concluded on exactly the tree participant k holds as newest, all of it frozen *)
+Definition settled_on (st : sstate) (k : N) : Prop :=
+  exists rn d, bfind (pt_nodes (get_party st k)) (rootid st) = Some rn /\ n_frozen rn = true
+    /\ bfind (l_disp (s_L st)) (rootid st) = Some d /\ d_phase d = DConcluded /\ newest rn = Some (d_state d)
+    /\ forall l, In l (al_locked (st_alloc (d_state d))) ->
+         exists n dl, bfind (pt_nodes (get_party st k)) (sa_id l) = Some n /\ n_frozen n = true
+           /\ bfind (l_disp (s_L st)) (sa_id l) = Some dl /\ d_phase dl = DConcluded
+           /\ newest n = Some (d_state dl).
+
+Lemma newest_hist n n' : n_hist n' = n_hist n -> newest n' = newest n.
+Proof. unfold newest. intros ->. reflexivity. Qed.
+
+Lemma settled_on_step st e st' k : settled_on st k -> step_spec st e st' -> settled_on st' k.
+Proof.
+  intros (rn & d & Hrn & Frn & Hd & Hc & Hn & Hl) H.
+  assert (Hr : rootid st' = rootid st) by (unfold rootid; destruct (step_static _ _ _ H) as (-> & _); reflexivity).
+  assert (Keep : forall id x, bfind (l_disp (s_L st)) id = Some x -> d_phase x = DConcluded ->
+            exists x', bfind (l_disp (s_L st')) id = Some x' /\ d_state x' = d_state x /\ d_phase x' = DConcluded).
+  { intros id x Hx Hcx. rewrite (step_ledger _ _ _ H). destruct (step_op st e) as [o|] eqn:Eo; [|eauto].
+    apply concluded_stays; auto. eapply step_op_not_progress; eauto. }
+  destruct (frozen_node_stays _ _ _ _ _ _ Hrn Frn H) as (rn' & Hrn' & Hh & Fr' & _).
+  destruct (Keep _ _ Hd Hc) as (d' & Hd' & Sd & Cd).
+  exists rn', d'. rewrite Hr. split; [exact Hrn'|]. split; [exact Fr'|]. split; [exact Hd'|]. split; [exact Cd|].
+  split; [rewrite Sd, (newest_hist _ _ Hh); exact Hn|].
+  rewrite Sd. intros l Hin. destruct (Hl _ Hin) as (n & dl & Hfn & Frl & Hdl & Hcl & Hnl).
+  destruct (frozen_node_stays _ _ _ _ _ _ Hfn Frl H) as (n' & Hn' & Hh' & Fr'' & _).
+  destruct (Keep _ _ Hdl Hcl) as (dl' & Hdl' & Sdl & Cdl).
+  exists n', dl'. split; [exact Hn'|]. split; [exact Fr''|]. split; [exact Hdl'|]. split; [exact Cdl|].
+  rewrite Sdl, (newest_hist _ _ Hh'). exact Hnl.
+Qed.
+
+(* looking a sub-channel up by id in the list of a tree finds that sub-channel's newest state *)
+Lemma tree_find st k tr : nodes_ok st k -> tree_shape (pt_nodes (get_party st k)) (rootid st) tr ->
+  forall l, In l (al_locked (st_alloc (fst tr))) ->
+    exists n t, bfind (pt_nodes (get_party st k)) (sa_id l) = Some n /\ newest n = Some t
+      /\ find_st (map snd (snd tr)) (sa_id l) = Some t.
+Proof.
+  intros Ok [_ F]. revert F. generalize (al_locked (st_alloc (fst tr))) (snd tr).
+  intros ls subs F. induction F as [|l0 e ls subs (n0 & Hf0 & Hp0 & Hn0) F IH]; intros l Hin; [destruct Hin|].
+  pose proof (newest_In _ _ Hn0) as Hin0. destruct (node_key_state _ _ _ _ _ Ok Hf0 Hin0) as [Hid0 _].
+  cbn [map find_st find]. fold (find_st (map snd subs) (sa_id l)).
+  destruct (bytes_eqb (st_id (snd e)) (sa_id l)) eqn:Eb.
+  - apply bytes_eqb_eq in Eb. rewrite Hid0 in Eb. exists n0, (snd e). rewrite <- Eb. auto.
+  - destruct Hin as [<-|Hin]; [rewrite Hid0, bytes_eqb_refl in Eb; discriminate|]. apply IH. exact Hin.
+Qed.
+
+Lemma tree_frozen_facts nodes root rs : tree_frozen nodes root rs = true ->
+  (forall rn, bfind nodes root = Some rn -> n_frozen rn = true)
+  /\ forall l n, In l (al_locked (st_alloc rs)) -> bfind nodes (sa_id l) = Some n -> n_frozen n = true.
+Proof.
+  unfold tree_frozen. intro H. apply andb_true_iff in H as [H1 H2]. split.
+  - intros rn E. rewrite E in H1. exact H1.
+  - intros l n Hl E. rewrite forallb_forall in H2. specialize (H2 _ Hl). rewrite E in H2. exact H2.
+Qed.
+
+Lemma conclude_success_settled st k tr L' evs :
+  nodes_ok st k -> newest_tree st k = Some tr ->
+  tree_frozen (pt_nodes (get_party st k)) (rootid st) (fst tr) = true ->
+  step_res (s_L st) (conclude_op st tr) = ROk (L', evs) ->
+  settled_on (set_ledger st L') k.
+Proof.
+  intros Ok Htr Hfr Hres. pose proof (tree_by_newest _ _ _ Htr) as Sh.
+  destruct Sh as [[rn [Hrn Hn]] F]. destruct (tree_frozen_facts _ _ _ Hfr) as [Fr1 Fr2].
+  pose proof (newest_In _ _ Hn) as Hin. destruct (node_key_state _ _ _ _ _ Ok Hrn Hin) as [Hid _].
+  unfold settled_on. rewrite rootid_set_ledger, sL_set_ledger. cbn [get_party set_ledger].
+  change (pt_nodes (if k =? 0 then s_p0 st else s_p1 st)) with (pt_nodes (get_party st k)).
+  unfold conclude_op in Hres.
+  destruct (st_final (fst tr) && (length (al_locked (st_alloc (fst tr))) =? 0)%nat
+            && match bfind (l_disp (s_L st)) (rootid st) with None => true | Some _ => false end) eqn:Ecase.
+  - (* conclude final *)
+    apply andb_true_iff in Ecase as [Ecase Enone]. apply andb_true_iff in Ecase as [_ El].
+    apply Nat.eqb_eq in El. apply length_zero_iff_nil in El.
+    destruct (bfind (l_disp (s_L st)) (rootid st)) eqn:Ed; [discriminate|].
+    cbn [step_res] in Hres. guards. unfold rootid in Ed. rewrite Ed in Hres. guards. injection Hres as <- _.
+    cbn [l_disp]. exists rn. eexists. split; [exact Hrn|]. split; [apply Fr1; exact Hrn|].
+    split; [unfold rootid; apply bfind_bput_same|]. cbn [d_phase d_state]. rewrite ?tx_st_signed.
+    split; [reflexivity|]. split; [exact Hn|]. rewrite El. intros l [].
+  - (* conclude *)
+    destruct (conclude_step _ _ _ _ _ _ Hres) as (_ & _ & D & out & Hc & -> & _).
+    destruct (conclude_rec_spec _ _ _ _ _ _ _ _ Hc) as (_ & _ & (d & Ed & Sd & Pd) & Fs & _).
+    rewrite Hid in Ed. exists rn, d. split; [exact Hrn|]. split; [apply Fr1; exact Hrn|].
+    split; [exact Ed|]. split; [exact Pd|]. split; [rewrite Sd; exact Hn|].
+    rewrite Sd. intros l Hl. rewrite Forall_forall in Fs. destruct (Fs _ Hl) as (sub & Hfs & _ & (dl & Edl & Sdl & Pdl)).
+    destruct (tree_find _ _ _ Ok (conj (ex_intro _ rn (conj Hrn Hn)) F) _ Hl) as (n & t & Hfn & Hnt & Hft).
+    rewrite Hft in Hfs. injection Hfs as <-. rewrite (find_st_id _ _ _ Hft) in Edl.
+    exists n, dl. split; [exact Hfn|]. split; [eapply Fr2; eauto|]. split; [exact Edl|]. split; [exact Pdl|].
+    rewrite Sdl. exact Hnt.
+Qed.
+
+Lemma settled_on_raise st i cf wf k : settled_on st k -> settled_on (raise st i cf wf) k.
+Proof.
+  unfold settled_on. rewrite sL_raise. unfold rootid. destruct (static_raise st i cf wf) as (-> & _).
+  rewrite !nodes_raise. auto.
+Qed.
+Lemma is_ok_step L o : is_ok (snd (step L o)) = true -> exists evs, step_res L o = ROk (fst (step L o), evs).
+Proof. unfold step. destruct (step_res L o) as [[L' evs]|e]; cbn [fst snd is_ok]; [eauto|discriminate]. Qed.
+
+Lemma flags_raise st i cf wf k :
+  pt_concl (get_party (raise st i cf wf) k) = (pt_concl (get_party st k) || (cf && Bool.eqb (side i) (side k)))
+  /\ pt_wd (get_party (raise st i cf wf) k) = (pt_wd (get_party st k) || (wf && Bool.eqb (side i) (side k))).
+Proof.
+  unfold raise. destruct (Bool.bool_dec (side i) (side k)) as [E|E].
+  - rewrite (get_set_side _ _ _ _ E). cbn [pt_concl pt_wd]. rewrite (get_party_side st i k E), E.
+    rewrite Bool.eqb_reflx, !andb_true_r. auto.
+  - rewrite (get_set_other _ _ _ _ E). apply Bool.eqb_false_iff in E. rewrite E, !andb_false_r, !orb_false_r. auto.
+Qed.
+
+Record inv03 (st : sstate) : Prop := mkInv03 {
+  j_ok0 : nodes_ok st 0; j_ok1 : nodes_ok st 1;
+  j_set : forall k, pt_concl (get_party st k) = true -> settled_on st k }.
+
+Lemma concl_local st i P k : pt_concl P = pt_concl (get_party st i) ->
+  pt_concl (get_party (set_party st i P) k) = pt_concl (get_party st k).
+Proof.
+  intro E. destruct (Bool.bool_dec (side i) (side k)) as [S|S].
+  - rewrite (get_set_side _ _ _ _ S), E, (get_party_side st i k S). reflexivity.
+  - rewrite (get_set_other _ _ _ _ S). reflexivity.
+Qed.
+
+Lemma inv03_step st e st' r : inv03 st -> sstep st e = Some (st', r) -> inv03 st'.
+Proof.
+  intros [Ok0 Ok1 Hs] H. apply sstep_spec in H. constructor.
+  - eapply nodes_ok_step; eauto.
+  - eapply nodes_ok_step; eauto.
+  - intros k Hc.
+    assert (Old : pt_concl (get_party st k) = true -> settled_on st' k).
+    { intro X. eapply settled_on_step; eauto. }
+    destruct e; cbn [step_spec] in H.
+    + destruct H as (_ & _ & _ & _ & _ & _ & _ & _ & _ & ->). apply Old. rewrite concl_local in Hc; auto.
+    + destruct H as (_ & n & cur & rest & _ & _ & _ & _ & _ & _ & ->). apply Old. rewrite concl_local in Hc; auto.
+    + destruct H as (_ & n & _ & ->). apply Old. rewrite concl_local in Hc; auto.
+    + destruct H as (_ & ->). apply Old. exact Hc.
+    + destruct H as (_ & _ & _ & ->). apply Old. exact Hc.
+    + destruct H as (_ & tr & _ & _ & ->). apply Old. exact Hc.
+    + destruct H as (Hi & tr & Htr & Hfr & E). subst st'.
+      destruct (is_ok (result st (conclude_op st tr))) eqn:Eok.
+      * destruct (flags_raise (after st (conclude_op st tr)) i true false k) as [Fc _]. rewrite Fc in Hc.
+        apply orb_true_iff in Hc as [Hc|Hc].
+        -- apply Old. exact Hc.
+        -- cbn [andb] in Hc. apply Bool.eqb_prop in Hc.
+           apply settled_on_raise. destruct (is_ok_step _ _ Eok) as [evs Hres].
+           assert (Htr' : newest_tree st k = Some tr).
+           { unfold newest_tree in *. rewrite <- (get_party_side st i k Hc). exact Htr. }
+           rewrite (get_party_side st i k Hc) in Hfr.
+           unfold after. eapply conclude_success_settled; eauto. apply nodes_ok_any; auto.
+      * apply Old. exact Hc.
+    + destruct H as (_ & _ & E). subst st'. destruct (is_ok (result st (withdraw_op st i))).
+      * destruct (flags_raise (after st (withdraw_op st i)) i false true k) as [Fc _]. rewrite Fc in Hc.
+        cbn [andb] in Hc. rewrite orb_false_r in Hc. apply Old. exact Hc.
+      * apply Old. exact Hc.
+    + destruct H as (_ & _ & _ & ->). apply Old. exact Hc.
+    + subst st'. apply Old. exact Hc.
+    + destruct H as (_ & _ & ->). apply Old. exact Hc.
+    + destruct H as (_ & ->). apply Old. exact Hc.
+    + destruct H as (_ & ->). apply Old. exact Hc.
+Qed.
+
+Lemma inv03_init rootp assets agree accts acc : inv03 (sinit rootp assets agree accts acc).
+Proof.
+  constructor.
+  - intros c n H. cbn in H. discriminate H.
+  - intros c n H. cbn in H. discriminate H.
+  - intros k H. unfold get_party, sinit in H. destruct (k =? 0); cbn in H; discriminate H.
+Qed.
+
+Lemma inv03_run : forall es st st', inv03 st -> srun st es = Some st' -> inv03 st'.
+Proof.
+  induction es as [|e es IH]; intros st st' Hi Hr; cbn [srun] in Hr.
+  - injection Hr as <-. exact Hi.
+  - destruct (sstep st e) as [[st1 r]|] eqn:E; [|discriminate]. eapply IH; [eapply inv03_step; eauto|exact Hr].
+Qed.
+
+(* C03, agreement part: when both participants' own Conclude went through, the ledger channel is concluded
+   on the state both hold as their newest agreed state, and the same holds for every sub-channel locked in
+   it: "the last state both signed" is one well-defined tree. Holds for every run of the LTS. *)
+Theorem both_settled_same_tree rootp assets agree accts acc es st :
+  srun (sinit rootp assets agree accts acc) es = Some st ->
+  pt_concl (s_p0 st) = true -> pt_concl (s_p1 st) = true ->
+  exists d rn0 rn1, bfind (l_disp (s_L st)) (rootid st) = Some d /\ d_phase d = DConcluded
+    /\ bfind (pt_nodes (s_p0 st)) (rootid st) = Some rn0 /\ newest rn0 = Some (d_state d)
+    /\ bfind (pt_nodes (s_p1 st)) (rootid st) = Some rn1 /\ newest rn1 = Some (d_state d)
+    /\ forall l, In l (al_locked (st_alloc (d_state d))) ->
+         exists dl n0 n1, bfind (l_disp (s_L st)) (sa_id l) = Some dl /\ d_phase dl = DConcluded
+           /\ bfind (pt_nodes (s_p0 st)) (sa_id l) = Some n0 /\ newest n0 = Some (d_state dl)
+           /\ bfind (pt_nodes (s_p1 st)) (sa_id l) = Some n1 /\ newest n1 = Some (d_state dl).
+Proof.
+  intros Hr C0 C1. pose proof (inv03_run es _ _ (inv03_init _ _ _ _ _) Hr) as [_ _ Hs].
+  destruct (Hs 0 C0) as (rn0 & d & Hrn0 & _ & Hd & Hc & Hn0 & Hl0).
+  destruct (Hs 1 C1) as (rn1 & d' & Hrn1 & _ & Hd' & _ & Hn1 & Hl1).
+  rewrite Hd in Hd'. injection Hd' as <-.
+  exists d, rn0, rn1. split; [exact Hd|]. split; [exact Hc|]. split; [exact Hrn0|]. split; [exact Hn0|].
+  split; [exact Hrn1|]. split; [exact Hn1|].
+  intros l Hl. destruct (Hl0 _ Hl) as (n0 & dl & Hf0 & _ & Hdl & Hcl & Hnl0).
+  destruct (Hl1 _ Hl) as (n1 & dl' & Hf1 & _ & Hdl' & _ & Hnl1). rewrite Hdl in Hdl'. injection Hdl' as <-.
+  exists dl, n0, n1. auto 10.
+Qed.
+
+(* ================= funding, holdings and accounts (all runs) ================= *)
+Definition acct (st : sstate) (i : nat) : N := nth i (s_accts st) 0.
+Definition dcol (st : sstate) (i : nat) (x : N) : Z := sum_for x (combine (s_assets st) (col (s_agree st) i)).
+Definition ocol (st : sstate) (out : list (list Z)) (i : nat) (x : N) : Z := sum_for x (combine (s_assets st) (col out i)).
+Definition zeros (A : list (list Z)) : list Z := map (fun _ => 0%Z) A.
+
+Record static_ok (st : sstate) : Prop := mkSO {
+  so_accts : length (s_accts st) = 2%nat;
+  so_distinct : nth 0 (s_accts st) 0 <> nth 1 (s_accts st) 0;
+  so_parts : length (lp_parts (s_root st)) = 2%nat;
+  so_agree_len : length (s_agree st) = length (s_assets st);
+  so_agree_rows : Forall (fun r => length r = 2%nat) (s_agree st) }.
+
+Definition unsettled_inv (st : sstate) (L : lstate) (acc0 : accounts) (f : fund) : Prop :=
+  (forall i, (i < 2)%nat -> nth i (f_wd f) true = false)
+  /\ (forall i, (i < 2)%nat -> col (f_hold f) i = if nth i (f_dep f) false then col (s_agree st) i else zeros (s_agree st))
+  /\ (forall i x, (i < 2)%nat -> acc_get (l_acc L) (acct st i, x)
+        = (acc_get acc0 (acct st i, x) - (if nth i (f_dep f) false then dcol st i x else 0))%Z).
+Definition paid_inv (st : sstate) (L : lstate) (acc0 : accounts) (f : fund) (out : list (list Z)) : Prop :=
+  forall i, (i < 2)%nat ->
+    (nth i (f_wd f) true = false ->
+       col (f_hold f) i = col out i
+       /\ forall x, acc_get (l_acc L) (acct st i, x) = (acc_get acc0 (acct st i, x) - dcol st i x)%Z)
+    /\ (nth i (f_wd f) true = true ->
+       col (f_hold f) i = zeros (f_hold f)
+       /\ forall x, acc_get (l_acc L) (acct st i, x) = (acc_get acc0 (acct st i, x) - dcol st i x + ocol st out i x)%Z).
+Definition all_dep (f : fund) : bool := forallb (fun b => b) (f_dep f).
+Definition fund_inv_at (st : sstate) (L : lstate) (acc0 : accounts) : Prop :=
+  match bfind (l_funds L) (rootid st) with
+  | None => forall i x, (i < 2)%nat -> acc_get (l_acc L) (acct st i, x) = acc_get acc0 (acct st i, x)
+  | Some f =>
+      f_assets f = s_assets st /\ fund_dims_ok f = true /\ length (f_dep f) = 2%nat
+      /\ (f_settled f = false -> unsettled_inv st L acc0 f)
+      /\ (f_settled f = true ->
+            is_concluded (l_disp L) (rootid st) = true
+            /\ (all_dep f = true -> exists out, ledger_outcome (l_disp L) (rootid st) = ROk out /\ paid_inv st L acc0 f out))
+  end.
+Definition fund_inv (st : sstate) (acc0 : accounts) : Prop := fund_inv_at st (s_L st) acc0.
+
+Lemma fund_inv_at_static st st' L acc0 : same_static st' st -> fund_inv_at st L acc0 -> fund_inv_at st' L acc0.
+Proof.
+  intros (Hr & Ha & Hg & Hc). unfold fund_inv_at, unsettled_inv, paid_inv, acct, dcol, ocol, rootid.
+  rewrite Hr, Ha, Hg, Hc. auto.
+Qed.
+
+(* the shape of the ledger operations of the LTS *)
+Definition op_shape (st : sstate) (o : lop) : Prop :=
+  match o with
+  | LDeposit p assets idx from amts =>
+      p = s_root st /\ assets = s_assets st /\ idx < 2 /\ from = acct st (N.to_nat idx)
+      /\ amts = col (s_agree st) (N.to_nat idx)
+  | LWithdraw p idx signer to => p = s_root st /\ idx < 2 /\ to = acct st (N.to_nat idx)
+  | LConclude p _ _ => p = s_root st
+  | LConcludeFinal p _ => p = s_root st
+  | LRegister p _ _ => p = s_root st
+  | LProgress _ _ _ _ _ => False
+  | LTick _ => True
+  end.
+Lemma step_op_shape st e st' o : step_spec st e st' -> step_op st e = Some o -> op_shape st o.
+Proof.
+  intros H Ho. destruct e; cbn [step_op] in Ho; try discriminate; cbn [step_spec] in H.
+  - injection Ho as <-. destruct H as (Hi & _). unfold fund_op, op_shape, acct. auto.
+  - injection Ho as <-. reflexivity.
+  - destruct (newest_tree st i); [|discriminate]. injection Ho as <-. reflexivity.
+  - destruct (newest_tree st i); [|discriminate]. injection Ho as <-. unfold conclude_op.
+    destruct (_ && _ && _); reflexivity.
+  - injection Ho as <-. destruct H as (Hi & _). unfold withdraw_op, op_shape, acct. auto.
+  - injection Ho as <-. reflexivity.
+  - injection Ho as <-. reflexivity.
+  - injection Ho as <-. reflexivity.
+  - injection Ho as <-. destruct H as (Hi & _). unfold withdraw_op, op_shape, acct. splits; [reflexivity| |reflexivity].
+    change (1 - h < 2). clear -Hi. lia.
+  - injection Ho as <-. exact I.
+Qed.
+
+(* ---- small facts used below ---- *)
+Lemma lt2 i : (i < 2)%nat -> i = 0%nat \/ i = 1%nat.
+Proof. lia. Qed.
+Lemma acct_inj st i j : static_ok st -> (i < 2)%nat -> (j < 2)%nat -> acct st i = acct st j -> i = j.
+Proof.
+  intros So Hi Hj E. pose proof (so_distinct _ So) as D. unfold acct in E.
+  destruct (lt2 _ Hi) as [->| ->], (lt2 _ Hj) as [->| ->]; congruence.
+Qed.
+Lemma matrix2_eq (h a : list (list Z)) :
+  length h = length a -> Forall (fun r => length r = 2%nat) h -> Forall (fun r => length r = 2%nat) a ->
+  col h 0 = col a 0 -> col h 1 = col a 1 -> h = a.
+Proof.
+  revert a; induction h as [|r h IH]; intros [|s a] L Fh Fa C0 C1; cbn [length] in L; try lia; [reflexivity|].
+  inversion Fh as [|? ? Hr Fh']; inversion Fa as [|? ? Hs Fa']; subst.
+  unfold col in C0, C1. cbn [map] in C0, C1. injection C0 as E0 C0. injection C1 as E1 C1.
+  f_equal; [|apply IH; auto; lia].
+  destruct r as [|x [|y [|z r]]], s as [|x' [|y' [|z' s]]]; cbn [length] in *; try lia. cbn [nth] in E0, E1. congruence.
+Qed.
+Lemma state_ok_rows p s : state_ok p s = true ->
+  Forall (fun r => length r = length (lp_parts p)) (al_bals (st_alloc s))
+  /\ length (al_bals (st_alloc s)) = length (al_assets (st_alloc s)).
+Proof.
+  unfold state_ok. intro H. apply andb_true_iff in H as [H Hn]. apply andb_true_iff in H as [_ Hv].
+  apply N.eqb_eq in Hn. unfold alloc_valid in Hv. split_and.
+  match goal with X : (len (al_bals _) =? len (al_assets _)) = true |- _ => apply N.eqb_eq in X; rename X into HL end.
+  match goal with X : forallb _ (al_bals _) = true |- _ => rename X into HR end.
+  split.
+  - apply Forall_forall. intros r Hr. rewrite forallb_forall in HR. specialize (HR r Hr).
+    apply andb_true_iff in HR as [HR _]. apply N.eqb_eq in HR. unfold nparts_of, len in *. lia.
+  - unfold len in HL. lia.
+Qed.
+Lemma zeros_length (A B : list (list Z)) : length A = length B -> zeros A = zeros B.
+Proof.
+  unfold zeros. revert B; induction A as [|a A IH]; intros [|b B] L; cbn [length] in L; try lia; [reflexivity|].
+  cbn [map]. f_equal. apply IH. lia.
+Qed.
+Lemma zero_col_length h i : length (zero_col h i) = length h.
+Proof. unfold zero_col. apply map_length. Qed.
+Lemma col_repeat0 n k i : col (repeat (repeat 0%Z k) n) i = repeat 0%Z n.
+Proof.
+  unfold col. induction n as [|n IH]; cbn [repeat map]; [reflexivity|]. rewrite IH. f_equal.
+  clear IH. revert i; induction k as [|k IHk]; intros [|i]; cbn [repeat nth]; auto.
+Qed.
+Lemma zeros_repeat (A : list (list Z)) : zeros A = repeat 0%Z (length A).
+Proof. unfold zeros. induction A; cbn [map length repeat]; [reflexivity|]. f_equal. assumption. Qed.
+Lemma all_dep_nth f i : all_dep f = true -> length (f_dep f) = 2%nat -> (i < 2)%nat -> nth i (f_dep f) false = true.
+Proof.
+  unfold all_dep. intros H L Hi. rewrite forallb_forall in H. apply H. apply nth_In. lia.
+Qed.
+Lemma nth_default_irrel (l : list bool) i a b : (i < length l)%nat -> nth i l a = nth i l b.
+Proof. intro H. apply nth_indep. exact H. Qed.
+Lemma fund_dims_facts f : fund_dims_ok f = true ->
+  length (f_hold f) = length (f_assets f) /\ length (f_wd f) = length (f_dep f)
+  /\ Forall (fun r => length r = length (f_dep f)) (f_hold f).
+Proof.
+  unfold fund_dims_ok. intro H. split_and. repeat match goal with X : (_ =? _)%nat = true |- _ => apply Nat.eqb_eq in X end.
+  splits; auto. apply Forall_forall. intros r Hr.
+  match goal with X : forallb _ (f_hold f) = true |- _ => rewrite forallb_forall in X; specialize (X r Hr); apply Nat.eqb_eq in X; exact X end.
+Qed.
+Lemma fund_dims_intro assets hold dep st wd :
+  length hold = length assets -> length wd = length dep -> Forall (fun r => length r = length dep) hold ->
+  fund_dims_ok (mkFund assets hold dep st wd) = true.
+Proof.
+  intros H1 H2 H3. unfold fund_dims_ok. cbn [f_hold f_assets f_wd f_dep].
+  rewrite H1, H2, !Nat.eqb_refl. cbn [andb]. apply forallb_forall. intros r Hr.
+  rewrite Forall_forall in H3. apply Nat.eqb_eq. apply H3. exact Hr.
+Qed.
+
+Lemma add_col_rows hold i amts c : Forall (fun r => length r = c) hold -> Forall (fun r => length r = c) (add_col hold i amts).
+Proof.
+  revert amts; induction hold as [|r h IH]; intros [|m am] F; cbn [add_col]; auto.
+  inversion F as [|? ? Hr F']; subst. constructor; [rewrite set_nth_length; reflexivity|apply IH; exact F'].
+Qed.
+
+Lemma fund_inv_deposit st L acc0 idx :
+  static_ok st -> fund_inv_at st L acc0 -> idx < 2 ->
+  fund_inv_at st (fst (step L (fund_op st idx))) acc0.
+Proof.
+  intros So FI Hi. unfold step. destruct (step_res L (fund_op st idx)) as [[L' evs]|e] eqn:E; cbn [fst]; [|exact FI].
+  unfold fund_op in E. destruct (deposit_step _ _ _ _ _ _ _ _ E) as (acc' & Hdeb & -> & Has & Hdim & Hlen & Hns & Hnd & Hlt & Hla).
+  set (i := N.to_nat idx) in *. rewrite (so_parts _ So) in *.
+  set (f0 := match bfind (l_funds L) (lp_id (s_root st)) with Some f => f | None => new_fund (s_assets st) 2 end) in *.
+  (* the record before the deposit satisfies the unsettled invariant *)
+  assert (U0 : unsettled_inv st L acc0 f0).
+  { unfold fund_inv_at, rootid in FI. subst f0. destruct (bfind (l_funds L) (lp_id (s_root st))) as [f|] eqn:Ef.
+    - destruct FI as (_ & _ & _ & FU & _). apply FU. exact Hns.
+    - unfold unsettled_inv, new_fund. cbn [f_wd f_hold f_dep]. splits.
+      + intros j Hj. destruct (lt2 _ Hj) as [->| ->]; reflexivity.
+      + intros j Hj. rewrite col_repeat0, zeros_repeat, (so_agree_len _ So).
+        destruct (lt2 _ Hj) as [->| ->]; reflexivity.
+      + intros j x Hj. rewrite (FI j x Hj). destruct (lt2 _ Hj) as [->| ->]; cbn [repeat nth]; lia. }
+  destruct U0 as (U1 & U2 & U3). destruct (fund_dims_facts _ Hdim) as (D1 & D2 & D3).
+  unfold fund_inv_at, rootid. cbn [with_acc_funds l_funds l_acc l_disp]. rewrite bfind_bput_same.
+  cbn [f_assets f_settled f_hold f_dep f_wd].
+  assert (Hrows : forallb (fun r => (i <? length r)%nat) (f_hold f0) = true).
+  { apply forallb_forall. intros r Hr. rewrite Forall_forall in D3. specialize (D3 r Hr). apply Nat.ltb_lt. lia. }
+  assert (Hla' : length (col (s_agree st) i) = length (f_hold f0)).
+  { rewrite col_length, D1, Has. apply (so_agree_len _ So). }
+  split; [exact Has|]. split.
+  { apply fund_dims_intro.
+    - rewrite add_col_length by exact Hla'. congruence.
+    - rewrite set_nth_length. exact D2.
+    - rewrite set_nth_length. apply add_col_rows. exact D3. }
+  split; [rewrite set_nth_length; exact Hlen|]. split; [|discriminate].
+  intros _. unfold unsettled_inv. cbn [f_wd f_hold f_dep with_acc_funds l_acc]. splits.
+  - exact U1.
+  - intros j Hj. rewrite col_add_col by assumption.
+    rewrite (nth_set_nth i j true false) by lia.
+    destruct (j =? i)%nat eqn:Eji; [|apply U2; exact Hj].
+    apply Nat.eqb_eq in Eji. subst j. rewrite (U2 i Hj).
+    rewrite (nth_default_irrel _ i false true) by lia. rewrite Hnd.
+    apply add_vec_zeros. rewrite col_length. reflexivity.
+  - intros j x Hj. rewrite (debit_all_get _ _ _ _ (acct st j, x) Hdeb). cbn [fst snd].
+    rewrite (U3 j x Hj). rewrite (nth_set_nth i j true false) by lia.
+    destruct (j =? i)%nat eqn:Eji.
+    + apply Nat.eqb_eq in Eji. subst j. unfold acct at 2. fold i. rewrite N.eqb_refl.
+      rewrite (nth_default_irrel _ i false true) by lia. rewrite Hnd. unfold dcol. rewrite Has. lia.
+    + assert (Ne : N.eqb (acct st j) (nth i (s_accts st) 0) = false).
+      { apply N.eqb_neq. intro X. apply Nat.eqb_neq in Eji. apply Eji. apply (acct_inj st j i So Hj Hlt X). }
+      rewrite Ne. lia.
 Qed.
